@@ -1,0 +1,16 @@
+// Copyright 2026 The Go Authors. All rights reserved.
+// Use of this source code is governed by a BSD-style
+// license that can be found in the LICENSE file.
+
+//go:build !verif
+
+// Package verifhook carries the instrumentation points used by the external
+// verification harness. It is only active under the "verif" build tag; without
+// the tag every call site compiles to nothing.
+package verifhook
+
+// Enabled reports whether the hooks are compiled in.
+const Enabled = false
+
+// Ev is a no-op without the verif build tag.
+func Ev(ev int, a, b uintptr, id uintptr) {}
